@@ -180,16 +180,19 @@
 
 (hy-repr-register
   hy.models.FComponent
-  (fn [x] (+
-    "{"
-    (hy-repr (get x 0))
-    (if x.conversion f" !{x.conversion}" "")
-    (if (> (len x) 1)
-      (+ " :" (if (isinstance (get x 1) hy.models.String)
-        (get x 1)
-        (hy-repr (get x 1))))
-      "")
-    "}")))
+  (fn [x]
+    (setv form (hy-repr (get x 0)))
+    (+
+      "{"
+      form
+      (if x.conversion f" !{x.conversion}" "")
+      (if (> (len x) 1)
+        (+ " :" #* (lfor part (cut x 1 None)
+          (if (isinstance part hy.models.String)
+            part
+            (hy-repr part))))
+        "")
+      "}")))
 
 (hy-repr-register
   hy.models.FString
